@@ -49,4 +49,4 @@ MANIFEST = {
     "technique": "Lean 4 proof (induction over entry lists and operation prefixes, decided counterexample histories) with differential "
                  "crash-point enumeration against the real kfake on an injected crash-simulating file system",
 }
-PENDING = True  # model being updated to the kfake persist repairs
+PENDING = "not claimed at the moment (the technique applies): the check exists (17 theorems, crash-image differential tie) and found three kfake defects, two repaired in /repo (fc48882, a250036); the Lean model is being re-transcribed to the repaired recovery code and the property is claimed again when the check passes on the repaired tree"
